@@ -10,6 +10,7 @@ import (
 	"fmt"
 	"net"
 	"sort"
+	"strings"
 	"sync"
 	"time"
 
@@ -67,6 +68,7 @@ type Tables struct {
 	SessQer []QerEntry
 	Slice   []QerEntry
 	Cmds    int // length of the command stream
+	Writes  int // commands other than the reads of measurement modules ("read", "get_*"): what a request can be said to have written
 	Errs    int // number of commands answered with an error so far
 }
 
@@ -402,6 +404,12 @@ func (s *Server) Snapshot() Tables {
 	defer s.mu.Unlock()
 
 	t := Tables{Cmds: len(s.cmds), Errs: s.errs}
+	for i := range s.cmds {
+		if c := s.cmds[i].Cmd; c != "read" && !strings.HasPrefix(c, "get_") {
+			t.Writes++
+		}
+	}
+
 	for _, e := range s.pdr {
 		t.Pdr = append(t.Pdr, *e)
 	}
